@@ -113,11 +113,56 @@ Definition race_possible (k : nat) (confirmed : list bool) (mid : bool) : bool :
           (race_outcomes k (length confirmed)).
 
 (* ------------------------------------------------------------------------------------- *)
+(* An operation nested in Add's call of the offered context's Done() method.  In pool.go Add *)
+(* holds the write lock from its first line to its return, across ctx.Done(): a Cancel() or  *)
+(* Size() started inside the callback blocks on the lock, and a watcher woken by members     *)
+(* ended inside the callback blocks on the read lock, until Add returns.  So the model - in  *)
+(* which Add is one atomic event - predicts: Done() is called iff Add does not ignore the    *)
+(* offer (neither <-p.Done() nor <-p.closed is ready); nothing nested completes inside the   *)
+(* callback ([inside] = the nested call returned there, [ndone] = the pool's context was     *)
+(* seen done there); every observation is that of the settled script: Add, then the nested             *)
+(* operation.                                                                                *)
+
+Definition pobs_match (o : bool * Z) (p : pobs) : bool :=
+  match p_done p with Some d => Bool.eqb d (fst o) | None => true end &&
+  match p_size p with Some z => (z =? snd o)%Z | None => true end.
+
+Fixpoint pobs_matches (a : list (bool * Z)) (b : list pobs) : bool :=
+  match a, b with
+  | [], [] => true
+  | x :: a', y :: b' => pobs_match x y && pobs_matches a' b'
+  | _, _ => false
+  end.
+
+Definition nested_called (pre ctxs : list Z) (ops1 : list sop) : bool :=
+  let s1 := script_end (settle (new_pool pre ctxs)) ops1 in
+  negb (ctx_done s1 || closed s1).
+
+Definition nested_agrees (pre ctxs : list Z) (ops1 : list sop) (o0 : bool * Z)
+           (obs1 : list (bool * Z)) (m : Z) (nops : list sop) (called inside ndone nret : bool)
+           (nres : option Z) (oA : bool * Z) (ops2 : list sop) (obs2 : list (bool * Z))
+           (fin leak : bool) : bool :=
+  let '(m0, mobs, mfin) := script_model pre ctxs (lin_add_first ops1 m nops ops2) in
+  eqb_obs m0 o0 &&
+  pobs_matches mobs (lin_add_first_obs obs1 nops ndone nres oA obs2) &&
+  Bool.eqb called (nested_called pre ctxs ops1) &&
+  negb inside && negb ndone && nret && Bool.eqb mfin fin && negb leak.
+
+(* ------------------------------------------------------------------------------------- *)
 
 Inductive case :=
 | CScript (pre ctxs : list Z) (ops : list sop)
           (obs0 : bool * Z) (obs : list (bool * Z)) (obs_final obs_leak : bool)
-| CRace (k : Z) (confirmed : list bool) (obs_mid obs_final obs_leak : bool).
+| CRace (k : Z) (confirmed : list bool) (obs_mid obs_final obs_leak : bool)
+(* a script in which some steps were not observed: the operations marked so by the harness
+   were issued back to back with the next one, without letting the pool settle (Spec.v, 4) *)
+| CPScript (pre ctxs : list Z) (ops : list sop) (obs0 : bool * Z) (obs : list pobs)
+           (obs_final obs_leak : bool)
+(* an operation nested in the Done() callback of the context offered to Add (Spec.v, 5) *)
+| CNested (pre ctxs : list Z) (ops1 : list sop) (obs0 : bool * Z) (obs1 : list (bool * Z))
+          (m : Z) (nops : list sop) (called inside ndone nret : bool) (nres : option Z)
+          (obsA : bool * Z) (ops2 : list sop) (obs2 : list (bool * Z))
+          (obs_final obs_leak : bool).
 
 Definition model_agrees (c : case) : bool :=
   match c with
@@ -126,12 +171,20 @@ Definition model_agrees (c : case) : bool :=
       eqb_obs m0 o0 && eqb_obss mobs obs && Bool.eqb mfin fin && negb leak
   | CRace k confirmed mid fin leak =>
       race_possible (Z.to_nat k) confirmed mid && fin && negb leak
+  | CPScript pre ctxs ops o0 obs fin leak =>
+      let '(m0, mobs, mfin) := script_model pre ctxs ops in
+      eqb_obs m0 o0 && pobs_matches mobs obs && Bool.eqb mfin fin && negb leak
+  | CNested pre ctxs ops1 o0 obs1 m nops called inside ndone nret nres oA ops2 obs2 fin leak =>
+      nested_agrees pre ctxs ops1 o0 obs1 m nops called inside ndone nret nres oA ops2 obs2 fin leak
   end.
 
 Definition oracle (c : case) : bool :=
   match c with
   | CScript pre ctxs ops o0 obs fin leak => script_oracle pre ctxs ops o0 obs fin leak
   | CRace _ confirmed mid fin leak => race_oracle confirmed mid fin leak
+  | CPScript pre ctxs ops o0 obs fin leak => pscript_oracle pre ctxs ops o0 obs fin leak
+  | CNested pre ctxs ops1 o0 obs1 m nops called inside ndone nret nres oA ops2 obs2 fin leak =>
+      nested_oracle pre ctxs ops1 o0 obs1 m nops called ndone nret nres oA ops2 obs2 fin leak
   end.
 
 (* 0 = agree and oracle holds; 1 = model and implementation differ; 2 = the implementation's
